@@ -100,8 +100,8 @@ def normalResidual [Add K] [Mul K] [Sub K] [Zero K] (A : Mat K m n) (b f : Vec K
 /-- `lsqCert A b f v tol`: every component of `Aᵀ(Av+b−f)` lies in `[-tol, tol]` (evaluated exactly). -/
 def lsqCert [Add K] [Mul K] [Sub K] [Neg K] [Zero K] [LE K] [DecidableLE K]
     (A : Mat K m n) (b f : Vec K m) (v : Vec K n) (tol : K) : Bool :=
-  (List.finRange n).all fun i =>
-    decide (-tol ≤ (normalResidual A b f v).get i) && decide ((normalResidual A b f v).get i ≤ tol)
+  let g := normalResidual A b f v
+  (List.finRange n).all fun i => decide (-tol ≤ g.get i) && decide (g.get i ≤ tol)
 
 /-! ## exact solution of the normal equations over ℚ (Gauss–Jordan, validated by substitution) -/
 
